@@ -242,6 +242,23 @@ Definition mul_assign_m (w c s : Z) : out Z := ck_rep w (c * s).  (* *= rep *)
 Definition div_assign_m (w c s : Z) : out Z := div_rep w c s.     (* /= rep *)
 Definition mod_assign_m (w c s : Z) : out Z := rem_rep w c s.     (* %= rep and %= duration *)
 
+(** * duration * rep, rep * duration, duration / rep, duration % rep  [time.duration.nonmember]
+   CD = duration<common_type_t<Rep1, Rep2>, Period>;  return CD(CD(d).count() op s);
+   (rep * duration forwards to duration * rep) *)
+Definition scale_ty (a : dty) (ws : Z) : dty := {| rw := Z.max (rw a) ws; pn := pn a; pd := pd a |}.
+Definition smul_m (a : dty) (ws : Z) : Z -> Z -> out Z :=
+  let t := scale_ty a ws in
+  let cv := conv_m a t in
+  fun c s => do x <- cv c; ck_rep (rw t) (x * s).
+Definition sdiv_m (a : dty) (ws : Z) : Z -> Z -> out Z :=
+  let t := scale_ty a ws in
+  let cv := conv_m a t in
+  fun c s => do x <- cv c; div_rep (rw t) x s.
+Definition smod_m (a : dty) (ws : Z) : Z -> Z -> out Z :=
+  let t := scale_ty a ws in
+  let cv := conv_m a t in
+  fun c s => do x <- cv c; rem_rep (rw t) x s.
+
 (** * floor.hpp, ceil.hpp, round.hpp, abs.hpp *)
 Definition floor_m (from to : dty) : Z -> out Z :=
   let cast := duration_cast_m from to in
@@ -304,6 +321,13 @@ Definition tp_add_assign_m := add_assign_m.
 Definition tp_sub_assign_m := sub_assign_m.
 Definition tp_inc_m := inc_m.
 Definition tp_dec_m := dec_m.
+(* time_point + duration, duration + time_point (= time_point + duration), time_point - duration,
+   time_point - time_point  [time.point.nonmember]: the duration operators on time_since_epoch() *)
+Definition tp_plus_m := plus_m.                    (* tp<a> + b *)
+Definition tp_plus_r_m (d tp : dty) : Z -> Z -> out Z :=   (* d + tp<tp>  ==  tp + d *)
+  let f := plus_m tp d in fun cd ctp => f ctp cd.
+Definition tp_minus_m := minus_m.                  (* tp<a> - b *)
+Definition tp_diff_m := minus_m.                   (* tp<a> - tp<b> *)
 Definition tp_eq_m := eq_m.
 Definition tp_ne_m := ne_m.                        (* rewritten from operator== *)
 Definition tp_lt_m := lt_m.
